@@ -57,6 +57,9 @@ CAT_K = [coll("c1", 101, ["sa_101v0"], ["ta_901v0"], 901, parts={"_default": [10
          coll("c2", 102, ["sa_102v0"], ["ta_902v0"], 902, parts={"_default": [1021, 9021]})]
 
 
+CAT_K3 = CAT_K + [coll("c3", 103, ["sa_103v0"], ["ta_903v0"], 903, parts={"_default": [1031, 9031]})]
+
+
 def kscripts(shape):
     """shape: {stream: [True/False,...]} (True = data pack) -> concrete scripts for the ckpt driver"""
     res = {}
